@@ -120,12 +120,27 @@ def check(ctx) -> Result:
                     cmps.append((src(resolve(x.left, body)).replace(" ", ""), type(x.ops[0]).__name__, src(x.comparators[0])))
                 if isinstance(x, (ast.Assign, ast.AugAssign)):
                     t = x.targets[0] if isinstance(x, ast.Assign) else x.target
-                    if isinstance(t, ast.Subscript) and src(t.value) == "pdist":
-                        stores.append(src(resolve(x.value, body)).replace(" ", ""))
+                    if isinstance(t, ast.Subscript) and _detag(src(t.value)) == "pdist":
+                        v_ = x.value
+                        # `d[k] = d.get(k, 0) + w` stores the weight w (accumulating form)
+                        if isinstance(v_, ast.BinOp) and isinstance(v_.op, ast.Add):
+                            terms_ = [v_.left, v_.right]
+                            rest_ = [t_ for t_ in terms_ if not (isinstance(t_, ast.Call) and isinstance(t_.func, ast.Attribute) and t_.func.attr == "get" and _detag(src(t_.func.value)) == "pdist")]
+                            if len(rest_) == 1:
+                                v_ = rest_[0]
+                        stores.append(src(resolve(v_, body)).replace(" ", ""))
                 if isinstance(x, ast.Subscript) and isinstance(x.slice, ast.Slice) and x.slice.upper is not None and "n_modes" in src(x.slice.upper) and x.slice.lower is None:
                     slices.append(src(x.slice.upper))
         return pads, cmps, stores, slices
-    fp, fs = facts(branches["permanent"]), facts(branches["slos"])
+    import re as _re
+    def _detag(x):
+        """names that helper expansion renamed apart (`name__helper3`) compare as the original name"""
+        if isinstance(x, str):
+            return _re.sub(r"__[A-Za-z_]+?\d+\b", "", x)
+        if isinstance(x, (list, tuple)):
+            return type(x)(_detag(y) for y in x)
+        return x
+    fp, fs = _detag(facts(branches["permanent"])), _detag(facts(branches["slos"]))
     res.add(len(fp[0]) == 1 and fp[0] == fs[0], "S-backend-siblings", "loss padding", b.site(), b.qualname, "both branches pad the input with loss_modes vacuum modes under the same condition",
             f"loss-mode padding differs between the backends: {fp[0]} vs {fs[0]}", construct="padding")
     import re
